@@ -23,6 +23,8 @@ func errResultIndex(call ssa.CallInstruction) int {
 type errPropOpts struct {
 	// inline closures handed to these callees (errgroup.Go etc.) are explored as functions of their own
 	maxVisits int
+	// retryOK: a failed call may be repeated and a later success counts (retry loops)
+	retryOK bool
 	// accept is called for a path on which a matched call failed but the function returned a nil
 	// error / has no error result; it returns true if the path handled the error in an accepted way.
 	accept func(st *State, ret *ssa.Return) bool
@@ -36,7 +38,7 @@ func errPropagates(c *Ctx, fn *ssa.Function, match func(name string, call *ssa.C
 	siteSet := map[*ssa.Call]bool{}
 	h := &Hooks{MaxVisits: opts.maxVisits}
 	if h.MaxVisits == 0 {
-		h.MaxVisits = 2
+		h.MaxVisits = 3 // two full iterations of a loop: "fail, then succeed and overwrite the error"
 	}
 	h.Fork = func(st *State, call *ssa.Call) []map[int]Val {
 		name := callee(call)
@@ -68,6 +70,16 @@ func errPropagates(c *Ctx, fn *ssa.Function, match func(name string, call *ssa.C
 			_ = k
 			if strings.HasPrefix(v.Sym, "failed:") && v.N == NNon {
 				failed = strings.TrimPrefix(v.Sym, "failed:")
+			}
+		}
+		// a failure in an earlier iteration of a loop over items stays a failure when a later
+		// iteration succeeds and overwrites the error variable ("last error wins"); rules about
+		// retry loops opt out
+		if failed == "" && !opts.retryOK {
+			for _, e := range st.Events {
+				if e.Kind == "outcome:failed" {
+					failed = e.Arg
+				}
 			}
 		}
 		if failed == "" {
